@@ -345,8 +345,6 @@ func (g *Genome) mutateAddNode(innovations InnovationsObserver, nodeIdGenerator 
 		return false, nil
 	}
 
-	gene.IsEnabled = false
-
 	// Extract the link
 	link := gene.Link
 	// Extract the weight
@@ -436,6 +434,8 @@ func (g *Genome) mutateAddNode(innovations InnovationsObserver, nodeIdGenerator 
 
 	// Now add the new NNode and new Genes to the Genome
 	if node != nil && gene1 != nil && gene2 != nil {
+		// the split gene is disabled only when the mutation really happens
+		gene.IsEnabled = false
 		g.geneInsert(gene1)
 		g.geneInsert(gene2)
 		g.nodeInsert(node)
